@@ -1,4 +1,4 @@
-import QP.Proofs.C09Main
+import QP.Proofs.C09Err
 /-!
 # C09 — program-tree bookkeeping stays coherent under every sequence of edits
 
@@ -61,5 +61,72 @@ theorem child_parent (t : T) (h : Coherent t) (p : Path) (n c : T) (k : Nat) (hn
 /-- `Loop.__eq__` is decided by structure, counts, waveforms and measurements only: two programs are
 equal iff they agree after forgetting identity, caches, positions and parent pointers. -/
 theorem eq_structural (a b : T) : eqStruct a b = true ↔ erase a = erase b := Main.eq_structural a b
+
+
+/-- Rejected, never altered: when an operation raises (`TypeError`, `IndexError`, `ValueError`,
+`RuntimeError`, `AssertionError`; also the model's own `unsupported`/`badPath`) the tree is exactly
+what it was.  The one exception is the `AttributeError` of `reverse_inplace` on a leaf without
+waveform, which stops a traversal half-way; `op_preserves` covers that state too. -/
+theorem rejected_unchanged (op : Op) (s : St) (e : Err) (h : (applyR op s).err = some e)
+    (he : e ≠ .attributeError) : (applyR op s).st.tree = s.tree := by
+  unfold applyR at h ⊢
+  split at h
+  · rfl
+  · split at h
+    · rfl
+    · rename_i r hr
+      simp only at h ⊢
+      rcases atPath_unchanged _ _ _ r hr (fun n _ => loc_errShape op s.next n) with h1 | h1 | h1
+      · rw [h1] at h; cases h
+      · rw [h1] at h; cases h; exact absurd rfl he
+      · exact h1.1
+
+/-! ### the hypotheses are satisfiable (non-vacuity) -/
+
+/-- `exTree`, `exOps` (QP/Proofs/C09Err.lean): a concrete coherent program and a history with queries,
+an append, an unroll, a split, an extended-slice assignment, a roll, a reversal, a count change -/
+example : Coherent exTree := (coherentB_iff _).1 (by decide +kernel)
+
+example : Coherent (exOps.foldl (fun s op => apply op s) ⟨exTree, 4⟩).tree :=
+  history exOps ⟨exTree, 4⟩ ((coherentB_iff _).1 (by decide +kernel)) ex_pre
+
+/-- the history really changes the program (8 children afterwards) and really fails somewhere else -/
+example : (exOps.foldl (fun s op => apply op s) ⟨exTree, 4⟩).tree.kids.length = 8 := by decide +kernel
+example : (applyR (.unroll [1]) ⟨exTree, 4⟩).err = some .runtimeError := by decide +kernel
+
+/-! ### PF-C09-2 (open finding): edits of a detached sub-tree or of a copy
+
+Full-strength statement, FALSE of the code (and of the model `applyBeside`, which keeps the defective
+behaviour): for every tree `t`, every other tree `d` and every operation on `d`,
+`Coherent t → Coherent d.tree → Pre op d → Coherent (applyBeside op t d).1`. -/
+
+/-- Outside the known class (the edited tree's root does not point to a node of `t`) an operation
+on another tree leaves `t` alone, so `t` stays coherent. -/
+theorem beside_partial (op : Op) (t : T) (d : St) (ht : Coherent t) (h : ¬ InKnownClass t d) :
+    Coherent (applyBeside op t d).1 := by
+  rw [beside_untouched op t d h]; exact ht
+
+/-- The edited tree itself stays coherent in every case. -/
+theorem beside_edited_coherent (op : Op) (t : T) (d : St) (hd : Coherent d.tree) (hp : Pre op d) :
+    Coherent (applyBeside op t d).2.st.tree := by
+  have : (applyBeside op t d).2 = applyR op d := by
+    unfold applyBeside; simp only; split <;> (try split) <;> rfl
+  rw [this]; exact Main.op_preserves op d hd hp
+
+/-- Inside the class the property fails: after `root.duration`, `c = root[1].copy_tree_structure()`,
+`c.append_child(leaf of duration 5)` the ORIGINAL root caches 8 where 3 is right. -/
+theorem beside_counterexample :
+    Coherent witT ∧ Coherent witD.tree ∧ Pre witOp witD ∧ InKnownClass witT witD ∧
+    ¬ Coherent (applyBeside witOp witT witD).1 := by
+  refine ⟨(coherentB_iff _).1 (by decide +kernel), (coherentB_iff _).1 (by decide +kernel),
+    ⟨(coherentB_iff _).1 (by decide +kernel), ?_⟩, ⟨0, by decide +kernel, by decide +kernel⟩, ?_⟩
+  · intro n hn
+    simp only [locate, Option.some.injEq] at hn
+    subst hn
+    decide +kernel
+  · intro h
+    have := (coherentB_iff _).2 h
+    revert this
+    decide +kernel
 
 end QP.Props.C09
